@@ -31,6 +31,10 @@ ASSUMPTIONS = [
 
 
 MUTANTS = [
+    ("order marker OR-ed onto the pixel number", "AegeanTools/regions.py",
+     "            pd.extend(map(lambda x: int(4**(d+1) + x), self.pixeldict[d]))",
+     "            pd.extend(map(lambda x: int(x) | (1 << (2*d + 2)), self.pixeldict[d]))",
+     "C12-R2"),
     ("normaliser promotes up to the base pixels", "AegeanTools/regions.py",
      "        for d in range(self.maxdepth, 2, -1):",
      "        for d in range(self.maxdepth, 0, -1):", "C12-R1"),
@@ -159,6 +163,24 @@ def run(ctx):
             try:
                 e = sym.Translator(prog, mod, {dname: d, elem: x}).expr(code)
             except sym.Untranslatable as ex:
+                bitops = [b for b in ast.walk(code)
+                          if isinstance(b, ast.BinOp) and
+                          isinstance(b.op, (ast.BitOr, ast.BitXor,
+                                            ast.BitAnd))]
+                if bitops:
+                    # ipix runs up to 12*4**d - 1 > 4*4**d: the pixel number
+                    # and the order marker share a bit for base pixels 4..11,
+                    # so OR / XOR is not the sum
+                    ctx.check("C12-R2", fi, "NUNIQ code " + norm(code),
+                              False, "the order marker is combined with the "
+                              "pixel number by a bit operation (%s); pixel "
+                              "numbers at order d reach 12*4**d - 1, which "
+                              "overlaps the marker bit 4*4**d: for base "
+                              "pixels 4-7 the marker is lost and the value "
+                              "decodes to another pixel; the code must be "
+                              "the SUM 4*4**level + ipix" %
+                              norm(bitops[0], 50), node=c)
+                    continue
                 ctx.unknown_site("C12-R2", fi, norm(code) + " :: %s" % ex, c)
                 continue
             ref = 4 * 4 ** lvl + x
